@@ -2,9 +2,17 @@
 //! please ref the doc from std::sync::mpsc
 use std::fmt;
 use std::panic::{RefUnwindSafe, UnwindSafe};
+#[cfg(may_verif)]
+use crate::verif::atomic::{AtomicBool, AtomicUsize, Ordering};
+#[cfg(not(may_verif))]
 use std::sync::atomic::{AtomicBool, AtomicUsize, Ordering};
 use std::sync::mpsc::{RecvError, RecvTimeoutError, SendError, TryRecvError};
 use std::sync::Arc;
+#[cfg(may_verif)]
+use crate::verif::Instant;
+#[cfg(may_verif)]
+use std::time::Duration;
+#[cfg(not(may_verif))]
 use std::time::{Duration, Instant};
 
 use super::{AtomicOption, Blocker};
